@@ -68,9 +68,19 @@ def runHist (ts : List String) : Option String := do
   let h := Knx.Dpt.Heap.run [] ops
   pure (" ".intercalate (h.map showCell))
 
+/-- the exported flag / priority / command constants as the source declares them (regenerated) -/
+def constTable : List (String × Nat) := [
+  ("Control1StdFrame", Control1StdFrame.toNat), ("Control1NoRepeat", Control1NoRepeat.toNat),
+  ("Control1NoSysBroadcast", Control1NoSysBroadcast.toNat), ("Control1WantAck", Control1WantAck.toNat),
+  ("Control1HasError", Control1HasError.toNat), ("Control2GroupAddr", Control2GroupAddr.toNat),
+  ("Control2LTEFrame", Control2LTEFrame.toNat), ("PrioSystem", PrioSystem.toNat), ("PrioNormal", PrioNormal.toNat),
+  ("PrioUrgent", PrioUrgent.toNat), ("PrioLow", PrioLow.toNat), ("GroupValueRead", GroupValueRead.toNat),
+  ("GroupValueResponse", GroupValueResponse.toNat), ("GroupValueWrite", GroupValueWrite.toNat)]
+
 def runGen (line : String) : String :=
   let r : Option String :=
     match line.splitOn " " with
+    | ["const", n] => (constTable.find? (·.1 == n)).map (fun p => toString p.2)
     | ["prio", x] => do let x ← b8 x; pure (toString (Control1Prio x).toNat)
     | ["hopsc", x] => do let x ← b8 x; pure (toString (Control2Hops x).toNat)
     | ["hops", x] => do let x ← b8 x; pure (toString (Hops x).toNat)
